@@ -26,6 +26,13 @@ BodyLib == << ExprS(P(11, Nm(0))), RetE(Nm(42)) >>
 BodyRestPush == << ExprS(P(12, CallE("arrayLength", <<V("rest")>>))), ExprS(CallE("arrayPush", <<V("rest"), Nm(7)>>)),
                    RetE(CallE("arrayLength", <<V("rest")>>)) >>
 
+\* a function that re-enters the global partial of itself: every call through a partial gets ITS OWN argument list
+\* (bound arguments first, then the arguments of that call)
+BodyRp == << ExprS(P(13, V("pa"))), ExprS(P(14, V("pb"))),
+             [k |-> "jump", label |-> "Ld", hasE |-> TRUE, e |-> Bin(">=", V("pb"), Nm(2))],
+             Assign("t", CallE("pp", <<Bin("+", V("pb"), Nm(1)), Nm(77)>>)), ExprS(P(15, V("pb"))),
+             [k |-> "label", v |-> "Ld"], RetE(V("pa")) >>
+
 Alphabet == <<
     Assign("x", Nm(1)), Assign("gv", Nm(7)),
     Assign("r", CallE("ff", <<>>)), Assign("r", CallE("ff", <<V("x")>>)),
@@ -42,11 +49,14 @@ Alphabet == <<
     Fun("ff", <<>>, FALSE, BodyNone),
     Fun("ff", <<"rest">>, TRUE, BodyRestPush),
     Fun("gg", <<"x">>, FALSE, BodyCallsFf),
+    Fun("rp", <<"pa", "pb">>, FALSE, BodyRp),
+    Assign("r", CallE("arrayNew", <<CallE("systemGlobalSet", <<[k |-> "str", v |-> <<112, 112>>], CallE("systemPartial", <<V("rp"), Nm(10)>>)>>),
+                                    CallE("pp", <<Nm(0)>>)>>)),
     Fun("arrayLength", <<"a">>, FALSE, BodyLib) >>
 
 Tuples(n) == UNION { [1..k -> 1..Len(Alphabet)] : k \in 1..n }
 ProgOf(ix) == [j \in 1..Len(ix) |-> Alphabet[ix[j]]]
 G0 == ("gv" :> IntV(0)) @@ ("probe" :> HostFn("probe"))
-Names0 == [gv |-> <<103, 118>>]
+Names0 == [gv |-> <<103, 118>>, pp |-> <<112, 112>>]
 PrintAlphabet == PrintT(<<"ALPHABET", ToJson(Alphabet)>>)
 =============================================================================
